@@ -64,17 +64,19 @@ theorem formOutFlat_ok (root : Str) (lists : List Str) (rows : List Cells) (sett
               · rename_i hwf
                 split at h
                 · cases h
-                · rename_i hv
-                  split at h
+                · split at h
                   · cases h
-                  · rename_i hs
-                    injection h with h; subst h
-                    refine ⟨_, ?_, ?_, ?_, hs, rfl, rfl, rfl, rfl⟩
-                    · simpa using hwf
-                    · simpa using hsafe
-                    · cases hv' : validateKids root (liftL (withMetaF (rows.map dropFlat) settings _)) with
-                      | error e => rw [hv'] at hv; cases hv
-                      | ok u => rfl
+                  · rename_i hv
+                    split at h
+                    · cases h
+                    · rename_i hs
+                      injection h with h; subst h
+                      refine ⟨_, ?_, ?_, ?_, hs, rfl, rfl, rfl, rfl⟩
+                      · simpa using hwf
+                      · simpa using hsafe
+                      · cases hv' : validateKids root (liftL (withMetaF (rows.map dropFlat) settings _)) with
+                        | error e => rw [hv'] at hv; cases hv
+                        | ok u => rfl
 
 theorem wfFL_append (a b : List FItem) : wfFL (a ++ b) = (wfFL a && wfFL b) := by
   induction a with
